@@ -2,6 +2,7 @@ package harness
 
 import (
 	"errors"
+	"fmt"
 	"io"
 	"log/slog"
 	"net"
@@ -24,6 +25,7 @@ type pendingPkt struct {
 	data []byte
 	op   int // originating op (-1 = automatic reaction)
 	off  int // bytes already delivered
+	rawWS bool // already a websocket frame (not to be wrapped)
 }
 
 type outMark struct {
@@ -73,6 +75,15 @@ type Conn struct {
 	openSeq  int
 	handler  *verifsim.Task
 	bytesIn  int
+
+	// websocket transport (C39): the peer wraps its MQTT byte stream into binary messages
+	ws        bool
+	wsRaw     int    // bytes of c.out already consumed by the deframer (incl. the HTTP 101 response)
+	wsHdr     bool   // HTTP response header skipped
+	wsStream  []byte // deframed MQTT bytes written by the broker
+	wsErr     string
+	wsClosed  bool
+	wsCtrl    int
 }
 
 // PktRec is one decoded packet the broker wrote on a connection.
@@ -264,7 +275,7 @@ func (c *Conn) BrokerClosed() bool {
 }
 
 func (c *Conn) LocalAddr() net.Addr  { return simAddr{"sim:1883"} }
-func (c *Conn) RemoteAddr() net.Addr { return simAddr{"simclient"} }
+func (c *Conn) RemoteAddr() net.Addr { return simAddr{fmt.Sprintf("simclient:%d", c.Idx)} }
 func (c *Conn) SetDeadline(t time.Time) error {
 	c.mu.Lock()
 	c.deadline = t
